@@ -95,6 +95,13 @@ def main(tier):
                 pass        # Vec::clear drops every element exactly once (trusted std)
             elif entry in ("new_node", "append_value"):
                 run.ob("drops", "%s/%s drops no payload" % (entry, prof), not drops, key="drops|%s drops a live payload" % entry, detail=e2props.detail_of(rec), nontrivial=(entry, "nodrop"))
+                # premise of free_node's classification "the old tail is a removed slot": an allocation must not leave the slot it hands out (now live) as an end
+                # of the free list - the next free_node of *another* node would write its `next` link over that live payload (seed C08-h1)
+                post, k = rec.get("fl_post"), rec.get("returned")
+                if entry == "new_node" and rec["exit"] == "return" and post is not None and k is not None:
+                    ok = post["first"] != k and post["last"] != k and not (post["first"] is None and post["last"] is not None)
+                    run.ob("tail-premise", "new_node/%s: afterwards the free list's ends do not name the (now live) slot handed out, and the tail is None when the list is empty" % prof, ok,
+                           key="tail-premise|new_node leaves a stale end of the free list naming a live slot", detail=e2props.detail_of(rec), nontrivial=("new_node", "tail", rec.get("shape")))
             else:
                 run.ob("drops", "%s/%s drops no payload" % (entry, prof), not drops, key="drops|%s drops a live payload" % entry, detail=e2props.detail_of(rec), nontrivial=(entry, "nodrop"))
     controls.selftest(run, ['relocating Vec call', 'leak primitive', 'unsafe block'])
